@@ -242,7 +242,11 @@ func (w *World) initChain() error {
 				sdk.NewCoin(EURE, sdkmath.NewInt(1_000_000_000_000_000)),
 			)...)
 			if n == "alice" {
-				coins = coins.Add(sdk.NewCoin(BIG, MaxUint256()))
+				coins = coins.Add(sdk.NewCoins(
+					sdk.NewCoin(BIG, MaxUint256()),
+					sdk.NewCoin(USDC, sdkmath.NewInt(9_000_000_000_000_000)),
+					sdk.NewCoin(USDN, sdkmath.NewInt(9_000_000_000_000_000)),
+				)...)
 			}
 		case "pool":
 			coins = coins.Add(sdk.NewCoins(
